@@ -33,12 +33,12 @@ Proof. exact holder_empty_iff. Qed.
 Print Assumptions C06_no_condition_no_predicate.
 
 (* End to end inside Coq (Proofs/WhereLinkProofs.v): for EVERY condition tree whose leaf expressions are
-   in the operator fragment (comparisons, arithmetic, NOT over primary operands), every backend, both
+   in the operator fragment (comparisons, arithmetic, LIKE .. ESCAPE, BETWEEN, NOT over primary operands), every backend, both
    settings of option-more-parentheses, the decision tables executed from the code on this run and every
    valuation of the atoms: the WHERE / HAVING / ON clause the renderer writes is the abstract rendering of
    to_simple_expr c; that token list has a parse under the dialect's levels; EVERY parse of it is the same
    tree, and the Kleene value of the tree so read is the specified any / all / not meaning of c. *)
-Require Import SQV.Spec.Pratt SQV.Spec.ParenRows SQV.Model.Escape SQV.Model.Writer SQV.Model.RenderExpr
+Require Import SQV.Spec.PrattT SQV.Spec.Prec SQV.Spec.ParenRows SQV.Model.Escape SQV.Model.Writer SQV.Model.RenderExpr
   SQV.Model.RenderStmt SQV.Model.ExprTablesInst SQV.Proofs.PrattLinkProofs SQV.Proofs.RowsSafeProofs
   SQV.Proofs.WhereLinkProofs.
 From Coq Require Import String.
@@ -46,8 +46,8 @@ Open Scope list_scope.
 Theorem C06_written_condition_reads_as_specified :
   forall (Q : Type) b more (rho : Expr.expr Q -> tv) (c : cond Q) rest p rest',
   cond_frag Q b c = true ->
-  stops (Expr.expr Q) binop (prec b) 0 rest ->
-  P (Expr.expr Q) binop (prec b) (rmin b) (notp b) 0
+  stops (Expr.expr Q) sop (prec b) 0 rest ->
+  P (Expr.expr Q) sop (prec b) (rmin b) (notp b) tern 0
     (abstract_rendering Q (tables_of more b) (to_simple_expr c) ++ rest) p rest' ->
   p = skel Q (to_simple_expr c) /\ rest' = rest /\ eval3 rho (unskel Q p) = sem_cond rho c.
 Proof. intros Q b more rho. apply written_condition_reads_as_specified. apply all_rows_safe. Qed.
@@ -55,8 +55,8 @@ Print Assumptions C06_written_condition_reads_as_specified.
 
 Theorem C06_written_condition_parses :
   forall (Q : Type) b more (c : cond Q) rest,
-  cond_frag Q b c = true -> stops (Expr.expr Q) binop (prec b) 0 rest ->
-  P (Expr.expr Q) binop (prec b) (rmin b) (notp b) 0
+  cond_frag Q b c = true -> stops (Expr.expr Q) sop (prec b) 0 rest ->
+  P (Expr.expr Q) sop (prec b) (rmin b) (notp b) tern 0
     (abstract_rendering Q (tables_of more b) (to_simple_expr c) ++ rest) (skel Q (to_simple_expr c)) rest.
 Proof. intros Q b more. apply written_condition_parses. apply all_rows_safe. Qed.
 Print Assumptions C06_written_condition_parses.
